@@ -702,6 +702,8 @@ def run(ctx):
     ]
     res = vlib.proof_stage(ctx)
     proof_ok = res["ok"]
+    timing = {"proof_stage_s": round(time.time() - t0, 1)}
+    t1 = time.time()
 
     okm, logm = vlib.coq_make(["Gen/Layout.vo", "Base/Bytes.vo", "Dict/Vocab.vo", "Dict/TableIx.vo", "Dict/MFile.vo"])
     if not okm:
@@ -711,6 +713,8 @@ def run(ctx):
     rmodel = vlib.ocaml_build("c06", "Extract_C06.v", os.path.join(vlib.VERIF, "ocaml", "c06", "driver.ml"))
     exe = build_harness()
     work = ctx.scratch("c06")
+    timing["builds_s"] = round(time.time() - t1, 1)
+    t1 = time.time()
     rng = random.Random(ctx.seed * 1000003 + (0 if ctx.tier == "quick" else 7))
     g = Gen(rng)
     nq, nr = (25, 25) if ctx.tier == "quick" else (60, 60)
@@ -777,12 +781,16 @@ def run(ctx):
             far = finish_case(fam(min(nmax, 3000)))
             boundary_cases.append(far)
     ctx.coverage["budget_boundary"] = boundary_log
+    timing["boundary_search_s"] = round(time.time() - t1, 1)
+    t1 = time.time()
 
     cases = [finish_case(c) for c in plan_cases(g, rng, ctx.tier)] + boundary_cases
     for i, c in enumerate(cases):
         c["name_dir"] = os.path.join(work, "case%d" % i)
         write_case(c, c["name_dir"])
     rc, obs, herr = run_harness(exe, [c["name_dir"] for c in cases], work, timeout=2400)
+    timing["harness_s"] = round(time.time() - t1, 1)
+    t1 = time.time()
     if len(obs) != len(cases):
         ctx.violation("harness-abort", "the harness did not report every case (rc=%d)" % rc,
                       {"stderr": herr[-4000:], "reported": len(obs), "cases": len(cases)}, found_input=False)
@@ -794,6 +802,8 @@ def run(ctx):
         impl.append(io)
     imgs = [int(io["probe"].get("img", io["hdr"].get("strtab", "0"))) for io in impl]
     rcm, model, merr = run_model(rmodel, [model_line(c, im) for c, im in zip(cases, imgs)], timeout=2400)
+    timing["model_s"] = round(time.time() - t1, 1)
+    t1 = time.time()
     if len(model) != len(cases):
         ctx.violation("model-runner-abort", "the extracted model did not answer every case (rc=%d)" % rcm,
                       {"stderr": merr[-3000:], "answered": len(model), "cases": len(cases)}, found_input=False)
@@ -913,7 +923,8 @@ def run(ctx):
         "correspondence_mismatches": len(mismatches), "oracle_failures_on_impl": len(oracle_failures),
         "mutation_drills": MUTATION_DRILLS,
     })
-    ctx.coverage["wall_correspondence_s"] = round(time.time() - t0, 1)
+    timing["compare_s"] = round(time.time() - t1, 1)
+    ctx.coverage["timing"] = timing
 
     # ---- verdicts
     seen = set()
